@@ -18,4 +18,4 @@ for c in ${@:-$pid}; do
   cp /verif/.work/evidence.$c.bak /verif/evidence/$c.json
 done
 rm -rf $scratch
-/venv/bin/python /verif/tools/translate.py >/dev/null
+/venv/bin/python /verif/tools/translate.py >/dev/null; (cd /verif/lean && lake build drv >/dev/null 2>&1)
